@@ -136,8 +136,9 @@ def build(seed, tier):
             ops.append({'op': 'separate_again'})
             k = 0
         elif c < 0.665:
-            # run() of the active code with a syntax error in it, without a verify() before (the compiler reports it)
-            ops.append({'op': 'run_syntax', 'at': ro.randint(0, 5)})
+            # run() of the active code with a syntax error in it, without a verify() before (the compiler reports it);
+            # or the active code imports a second student file that has one
+            ops.append({'op': 'run_syntax', 'at': ro.randint(0, 5), 'imported': ro.random() < 0.35})
         elif c < 0.82:
             ops.append({'op': 'run', 'enumerate': True, 'exc': rf.choice(faults.ORDINARY + ['SystemExit'])})
         elif c < 0.92:
@@ -173,7 +174,10 @@ def build(seed, tier):
 # --------------------------------------------------------------------------- execution
 
 MAIN_NAMES = ('answer.py', 'student_code.py', 'main.py')
+HELPER_BAD = 'fine = 1\nalso_fine = 2\nbroken = = 3\n'      # a second student file with a syntax error on its line 3
+HELPER_BAD_LINE = 3
 LINE_RE = re.compile(r'Line (\d+) of file (?:answer|student_code|main)\.py')
+QUOTE_RE = re.compile(r'Line (\d+) of file (?:answer|student_code|main)\.py[^\n]*\n([^\n]*)')
 
 
 def fb_rec(f):
@@ -186,6 +190,7 @@ def fb_rec(f):
             'line': getattr(loc, 'line', None) if loc is not None else None,
             'lineno_field': fields.get('lineno') if isinstance(fields.get('lineno'), int) else None,
             'tb_text_lines': [int(x) for x in LINE_RE.findall(msg)],
+            'tb_text_quotes': [(int(n), q) for n, q in QUOTE_RE.findall(msg)],
             'tb_stack_lines': [getattr(fr, 'lineno', None) for fr in stack if fr is not None and getattr(fr, 'filename', None) in MAIN_NAMES],
             'exception_name': fields.get('exception_name') if isinstance(fields.get('exception_name'), str) else None,
             'name_field': fields.get('name') if isinstance(fields.get('name'), str) else None,
@@ -212,7 +217,8 @@ def execute(spec):
     knobs = spec.get('knobs') or {}
     via_set_source = knobs.get('entry') == 'set_source'
     if not via_set_source:
-        MAIN_REPORT.contextualize(Submission(files={main_file: original}, main_file=main_file, instructor_file='instructor.py'))
+        MAIN_REPORT.contextualize(Submission(files={main_file: original, 'helper_bad.py': HELPER_BAD}, main_file=main_file,
+                                             instructor_file='instructor.py'))
     sub = MAIN_REPORT.submission
     if knobs.get('full_traceback'):
         get_sandbox().full_traceback = True
@@ -307,7 +313,13 @@ def execute(spec):
                 planted = None
                 if real:
                     at = real[op['at'] % len(real)]
-                    lines[at] = lines[at] + ' = = 1'
+                    top_level = [i for i in real if not lines[i].startswith((' ', '\t')) and not lines[i].rstrip().endswith(':')]
+                    if op.get('imported') and top_level and not via_set_source:
+                        at = top_level[op['at'] % len(top_level)]
+                        lines[at] = 'import helper_bad'
+                        o['imported_file_line'] = HELPER_BAD_LINE
+                    else:
+                        lines[at] = lines[at] + ' = = 1'
                     planted = at + 1
                     sub.replace_main('\n'.join(lines))
                 o['planted_local_line'] = planted
@@ -496,7 +508,13 @@ def judge(spec, res):
                         return vs
         if kind == 'run_syntax' and o.get('planted_local_line') is not None and (in_section or whole_after_past_end):
             rt = [f for f in o['new_feedback'] if f['category'] == 'runtime' and f.get('exception_name') in ('SyntaxError', 'IndentationError')]
-            if len(rt) == 1:
+            if len(rt) == 1 and o.get('imported_file_line') is not None:
+                # the error is in the imported file: its own line there, whatever section is active
+                if rt[0]['line'] != o['imported_file_line']:
+                    viol('compile-error-location-line', 'syntax error on line %d of the imported helper_bad.py; run() located it at %r'
+                         % (o['imported_file_line'], rt[0]['line']), '/in-imported-file')
+                    return vs
+            elif len(rt) == 1:
                 f = rt[0]
                 want_line = cur_off + o['planted_local_line']
                 where = 'past-the-end' if past_end else ('prologue' if k == 0 else 'later')
@@ -529,6 +547,14 @@ def judge(spec, res):
                     viol('runtime-traceback-line', 'exception raised on original line %d; traceback text says line %d' % (
                         want_line, f['tb_text_lines'][-1]), '/section=%s' % where)
                     return vs
+                # ... and the source line quoted under that number is that line of the original file
+                olines = original.split('\n')
+                for n, quoted in (f.get('tb_text_quotes') or [])[-1:]:
+                    if 1 <= n <= len(olines) and quoted.strip(' \t\x0c') != olines[n - 1].strip(' \t\x0c') \
+                            and quoted.strip() and olines[n - 1].strip() and '\u2028' not in olines[n - 1] and '\x0b' not in olines[n - 1]:
+                        viol('runtime-traceback-quotes-another-line', 'traceback text shows %r as line %d; line %d of the file is %r' % (
+                            quoted.strip()[:50], n, n, olines[n - 1].strip()[:50]), '/section=%s' % where)
+                        return vs
         if kind == 'check_exists' and not stopped:
             # "are there at least n sections": feedback exactly when there are fewer (the tool stays silent once a
             # syntax error has been found in the current code)
